@@ -114,6 +114,34 @@ def gen_segment(rng):
             return 'arc', [st, complex(rx, ry), float(rng.choice([0, 45, 90, rng.uniform(-180, 180)])),
                            rng.random() < 0.5, rng.random() < 0.5, e if e != st else st + rx], 'tiny-units', []
         return 'cubic', [rnd_c(rng, S * 10) for _ in range(4)], 'tiny-units', []
+    if r0 < 0.22:
+        # gently bowed quadratic: |start - 2 control + end| / |2 (control - start)| log-uniform in [1e-7, 1e-1]
+        # (both sides of the code's own "nearly straight" threshold), judged at the statement's 1e-6
+        p, q = rnd_c(rng, sc), rnd_c(rng, sc)
+        if p == q:
+            q = p + 1
+        ratio = 10 ** rng.uniform(-7, -1)
+        d = (q - p) / abs(q - p)
+        off = ratio * abs(q - p) / 2 * d * complex(math.cos(rng.uniform(0, 6.3)), math.sin(rng.uniform(0, 6.3))) \
+            if rng.random() < 0.3 else ratio * abs(q - p) / 2 * d * 1j * rng.choice([-1, 1])
+        return 'quad', [p, (p + q) / 2 + off, q], 'bowed', []
+    if r0 < 0.28:
+        # cubic whose midpoint B(1/2) (lam = 1/2: point-symmetric S) or whose point B(1/2) lies ON the chord at
+        # lam = 1/4, 3/4; integer coordinates, so that the chord rule's first test length2 - length is exactly 0:
+        # only the `depth < min_depth` clause makes segment_length subdivide
+        g = rng.choice([1, 1, 3, 0.5])
+        P0 = complex(3 * rng.randint(-20, 20), 3 * rng.randint(-20, 20)) * g
+        P3 = P0 + complex(3 * rng.randint(4, 40), 3 * rng.randint(-20, 20)) * g
+        P1 = P0 + complex(rng.randint(-40, 60), rng.randint(20, 130) * rng.choice([-1, 1])) * g
+        lam = rng.choice([2, 2, 2, 1, 3])          # quarters
+        P2 = {2: P0 + P3, 1: (5 * P0 + P3) / 3, 3: (P0 + 5 * P3) / 3}[lam] - P1
+        return 'cubic', [P0, P1, P2, P3], 'midpoint-on-chord', []
+    if r0 < 0.33:
+        # closed loops: curved segments that return to their start
+        a_ = rnd_c(rng, sc)
+        if rng.random() < 0.5:
+            return 'cubic', [a_, a_ + rnd_c(rng, sc), a_ + rnd_c(rng, sc), a_], 'loop', []
+        return 'quad', [a_, a_ + rnd_c(rng, sc), a_], 'repeated:s=e', [0.5]
     if r < 0.08:
         return 'line', [rnd_c(rng, sc), rnd_c(rng, sc)], 'generic', []
     if r < 0.40:
@@ -552,7 +580,10 @@ def run(rep, tier, seed, replay=None):
                     mk_seg(kind, params)
                 except Exception:
                     continue
-                todo.append((kind, params, sub, gen_intervals(rng, sp)))
+                ivs = gen_intervals(rng, sp)
+                if sub == 'midpoint-on-chord':
+                    ivs = [(0.0, 1.0), (0.25, 0.75), ivs[-1]]
+                todo.append((kind, params, sub, ivs))
 
         dist, cases = {}, []
         T_START = time.time()
@@ -679,6 +710,23 @@ def run(rep, tier, seed, replay=None):
             for _ in range(40 if quick else 300):
                 n = rng.randint(1, 5)
                 segs = [rng.choice(pool) for _ in range(n)]
+                if rng.random() < 0.4:
+                    # a curved segment that returns to its start (start == end): alone, first, middle or last;
+                    # near-full arcs (start close to, not equal to, end) as well
+                    sc_ = 10 ** rng.uniform(-1, 2)
+                    a_ = rnd_c(rng, sc_)
+                    loop = rng.choice([('cubic', [a_, a_ + rnd_c(rng, sc_), a_ + rnd_c(rng, sc_), a_]),
+                                       ('cubic', [0j, 100 + 100j, -100 + 100j, 0j]),
+                                       ('quad', [a_, a_ + rnd_c(rng, sc_), a_]),
+                                       ('quad', [6 + 2j, 5 - 1j, 6 + 2j]),
+                                       ('arc', [a_, complex(sc_, sc_ * rng.uniform(0.3, 3)), 0.0, True, rng.random() < 0.5,
+                                                a_ + sc_ * 1e-3 * rnd_c(rng, 1)])])
+                    pos = rng.choice([0, n - 1, rng.randrange(n)])
+                    segs[pos] = loop
+                    try:
+                        mk_seg(*loop)
+                    except Exception:
+                        segs[pos] = rng.choice(pool)
                 cfg = rng.random() < 0.5
                 P._quad_available = cfg
                 try:
